@@ -229,6 +229,18 @@ pub fn run(env: &Env) -> i32 {
         }
         st.violations.extend(vs);
     }
+    let fz = fuzz_inputs();
+    let mut fuzz_stats = json!({"status": "not run in this tier"});
+    if let Some(fz) = &fz {
+        fuzz_stats = fz.stats.clone();
+        enum_stream(env, &mut st, fz.inputs.len() as u64, |i, s| match crate::props::c01::text_of_fuzz_tape(&fz.inputs[i as usize].1) {
+            Some(text) => {
+                s.count("fuzz_inputs_replayed");
+                check_text("fuzz-corpus", &text, s)
+            }
+            None => vec![],
+        });
+    }
     for (name, focus, plant, n) in [("items-general", 0u8, 120u32, env.tier.n(4000, 50_000)), ("items-declarations", 1, 70, env.tier.n(4000, 50_000)), ("items-mutability", 2, 70, env.tier.n(4000, 50_000)), ("items-selfdestruct", 3, 60, env.tier.n(4000, 50_000))] {
         let cfg = program::GenCfg { undecided: true, plant, focus, max_items: 6, max_members: 6, max_stmts: 3, ..Default::default() };
         tape_stream(env, &mut st, name, n, 1500, |tape, s| {
@@ -245,7 +257,7 @@ pub fn run(env: &Env) -> i32 {
             "an item extends from its first byte to the first byte of the next item; pragma directives are kept in every blanked file".into(),
             "files in which an item mentions or re-declares a state-variable name of another item are outside the domain (skipped, counted)".into(),
         ],
-        extra: json!({}),
+        extra: json!({"fuzz": fuzz_stats}),
         floors: vec![
             ("(file, detector) pairs with findings in >= 2 items".into(), g("detector_has_findings_in_two_or_more_items"), 500),
             ("files with constructors in two items".into(), g("files_with_constructors_in_two_items"), 30),
